@@ -141,7 +141,7 @@ def plan(tier, seed):
             big = [[1025, 1031]] if tier == "quick" else [[1025, 1031], [2049, 2050], [3, 700, 521], [1048583]] + ([[2900, 2901], [4100, 4224]] if dtname == "float32" else [])
             for shp in big:
                 tasks.append({"kind": "layout", "q": q, "dt": dtname, "shapes": [shp]})
-            tasks.append({"kind": "repeat", "q": q, "dt": dtname, "n": 48 if tier == "quick" else 200})
+            tasks.append({"kind": "repeat", "q": q, "dt": dtname, "n": 48 if tier == "quick" else 200, "live": 300 if tier == "quick" else 1200})
     return tasks
 
 
@@ -330,6 +330,19 @@ def _layout_task(task):
                     stats["cases"] += 1
                     fields = {"dtype": dtname, "qtype": qname, "mode": mode, "layout": lname}
                     case = dict(task, only=[list(shape), lname, mode])
+                    if dtname != "float32" and lname in ("contig", "permuted") and not task.get("shapes"):
+                        # a half-precision source with a float32 scale (scales kept in float32): the working dtype is float32
+                        try:
+                            sc32 = (sc.to(torch.float32) * 1.0371).to(torch.float32)
+                            q32 = _quantize(x, sc32, qname, mode)
+                            stats["calls"] += 1
+                            # a 0-dim float32 scale does not promote a half-precision tensor (torch type promotion): the quotient is
+                            # computed in the source dtype, which is then the working dtype; a per-axis float32 scale promotes
+                            res32, _ = judge(x.to(torch.float32), sc32, q32, "float32" if mode in ("axis0", "axism1") else dtname, qname, mode, want_idem=False)
+                            for sub, mask, extra in res32:
+                                vs.append(violation(PID, case, dict(fields, sub="mixed_" + sub, scale_dtype="float32"), f"mixed_{sub}: {dtname} source with a float32 scale, shape {shape} layout {lname} mode {mode} ({qname}) {extra.get('msg', '')}"))
+                        except Exception as e:  # noqa
+                            vs.append(violation(PID, case, dict(fields, sub="raised", scale_dtype="float32"), f"raised: {dtname} source with a float32 scale: {type(e).__name__}: {e}"))
                     try:
                         if x.numel() >= 1 << 20:
                             num.poison(x.numel() * x.element_size(), x.numel())
@@ -406,6 +419,35 @@ def _repeat_task(task):
                     break
         except Exception as e:  # noqa
             vs.append(violation(PID, case, dict(fields, sub="raised"), f"raised: {type(e).__name__}: {e} in the repetition ladder mode {mode}"))
+    # many live objects: n per-tensor quantized tensors of 8192 elements, each with its own scale object, dequantized in two
+    # passes (tables or buffers cached per scale object / slot rings must not serve one tensor with the data of another)
+    if (only is None or only == ["live"]) and task.get("live"):
+        fields = {"dtype": dtname, "qtype": qname, "mode": "tensor", "layout": "live"}
+        case = dict(task, only=["live"])
+        stats["cases"] += 1
+        try:
+            i8 = torch.arange(8192, dtype=torch.float64)
+            live = []
+            for i in range(task["live"]):
+                xi = ((((i8 * 37 + i) % 61) - 30) * 0.37).to(dt)
+                sc = torch.tensor(0.05 * (1 + i % 17), dtype=dt)
+                live.append((xi, sc, _quantize(xi, sc, qname, "tensor")))
+            firsts = []
+            for ps in range(2):
+                for i, (xi, sc, qi) in enumerate(live):
+                    d = qi.dequantize()
+                    stats["calls"] += 1
+                    if ps == 0:
+                        firsts.append(d.clone())
+                        if i % 16 == 0:
+                            res, st = judge(xi, sc, qi, dtname, qname, "tensor", want_idem=False)
+                            for sub, mask, extra in res:
+                                vs.append(violation(PID, case, dict(fields, sub="live_" + sub), f"live_{sub}: tensor #{i + 1} of {len(live)} live quantized tensors ({dtname},{qname}) {extra.get('msg', '')}"))
+                    elif not num.same_bits(d, firsts[i]):
+                        vs.append(violation(PID, case, dict(fields, sub="live_dequantize"), f"live_dequantize: second-pass dequantization of tensor #{i + 1} of {len(live)} live quantized tensors differs from the first pass ({dtname},{qname})"))
+                        break
+        except Exception as e:  # noqa
+            vs.append(violation(PID, case, dict(fields, sub="raised"), f"raised: {type(e).__name__}: {e} in the live-objects ladder"))
     return vs, stats
 
 
